@@ -3,6 +3,7 @@ package store
 import (
 	"bytes"
 	"context"
+	"os"
 	"path/filepath"
 
 	"github.com/ipld/go-storethehash/internal/vrt"
@@ -118,6 +119,12 @@ func Verif_H03Crash() {
 		vrt.Assert(ok, "recovered-value-is-flushed-or-acknowledged-later", "window", window, "found", found, "states", len(al[i]))
 		rm.present[i] = found
 		rm.val[i] = v
+		// values the key had before are remembered for classifying stale reads
+		for _, st := range al[i] {
+			if st.present {
+				rm.old[i] = append(rm.old[i], st.val)
+			}
+		}
 	}
 	// the recovered store keeps behaving like a map, including through GC
 	checkAll(r, keys, rm, "recovered")
@@ -130,7 +137,11 @@ func Verif_H03Crash() {
 		_, _, err = r.index.VerifGC(context.Background(), true)
 		vrt.Assert(err == nil, "index-gc-after-recovery-no-error")
 	}
-	checkAll(r, keys, rm, "after-recovery")
+	wctx := "after-recovery"
+	if _, e := os.Stat(filepath.Join(img, "i.free.gc")); e == nil {
+		wctx += "+leftover-freelist-gc-file" // an interrupted GC left its hand-over file behind
+	}
+	checkAll(r, keys, rm, wctx)
 	vrt.Assert(r.Close() == nil, "close-recovered-no-error")
 	vrt.Cover("h03-end")
 }
